@@ -1,3 +1,4 @@
+import Feox.Fmt.MetaRT
 import Feox.Fmt.Lemmas
 import Feox.Fmt.Recover
 /-!
@@ -473,5 +474,15 @@ example : WfRec 3 ⟨[107, 49], 5, 1700000000, 0⟩ [1, 2, 3, 4, 5] :=
 
 example : WfRec 1 ⟨[7, 7, 7], 1, 5, 0⟩ [9] :=
   ⟨by decide, by decide, rfl, by decide, by decide, by decide, fun _ => rfl⟩
+
+/-- **Metadata image round trip**: for every metadata value whose fields fit their widths, the
+field extraction of `Metadata::from_bytes` applied to the 136-byte image returns exactly that
+value (offsets taken from the regenerated constants) … -/
+theorem metadata_roundtrip (m : Meta) (h : m.Fits) : Meta.rawDecode m.encode = m :=
+  meta_fields_roundtrip m h
+
+/-- … and the image has the documented size -/
+theorem metadata_image_size (m : Meta) (h : m.Fits) : m.encode.length = METADATA_ENCODED_SIZE :=
+  meta_encode_length m h
 
 end Feox.C10
